@@ -62,8 +62,26 @@ def flip_ops(dirs, target_dir, fname, off, mask, cfg):
     return ops
 
 
+def multiblock_db_ops(rng):
+    """a database with records spanning several 32 KiB blocks (full-block chunks have the largest legal length)"""
+    cfg = "1048576 0 0 %d 0 4" % rng.choice([1, 2, 3])
+    ops = ["open orig " + cfg]
+    hist = {}
+    seed = rng.randrange(1000)
+    for k, n in ((b"aa", rng.choice([70000, 98300])), (b"bb", 5), (b"cc", rng.choice([32761 - 12, 32768 * 2])), (b"dd", 60)):
+        seed += 1
+        tok = "p%d:%d" % (seed, n)
+        hist.setdefault(k, set()).add(core.fmt_val(core.val_bytes(tok)))
+        ops.append("put %s %s" % (k.hex(), tok))
+    ops += ["dump", "close"]
+    return ops, hist, cfg
+
+
 def check_db(res, ctx, rng, variant, exhaustive_limit):
-    setup, hist, cfg = small_db_ops(rng, variant)
+    if variant == "multiblock":
+        setup, hist, cfg = multiblock_db_ops(rng)
+    else:
+        setup, hist, cfg = small_db_ops(rng, variant)
     base = ctx.scratch.fresh()
     try:
         outs = run_impl(setup + ["files orig", "files orig-merge"], base)
@@ -79,12 +97,19 @@ def check_db(res, ctx, rng, variant, exhaustive_limit):
             if sz == 0:
                 continue
             wd = "w" if d == "orig" else "w-merge"
-            positions = [(o, 1 << b) for o in range(sz) for b in range(8)]
-            if len(positions) > exhaustive_limit:
-                positions = rng.sample(positions, exhaustive_limit)
-                res.count("files_sampled")
+            if variant == "multiblock":
+                # every bit of the 16 bytes at each block start (chunk headers of First/Middle/Last chunks), of the
+                # first bytes of the file and of the last 90 bytes
+                offs = sorted(set(o for blk in range(0, sz, 32768) for o in range(blk, min(sz, blk + 16))) | set(range(max(0, sz - 90), sz)))
+                positions = [(o, 1 << b) for o in offs for b in range(8)]
+                res.count("multiblock_header_flips", len(positions))
             else:
-                res.count("files_exhaustive")
+                positions = [(o, 1 << b) for o in range(sz) for b in range(8)]
+                if len(positions) > exhaustive_limit:
+                    positions = rng.sample(positions, exhaustive_limit)
+                    res.count("files_sampled")
+                else:
+                    res.count("files_exhaustive")
             targets += [(wd, f, o, m) for o, m in positions]
         # run in chunks inside one process; a dead process restarts after the offending flip
         i = 0
